@@ -17,6 +17,8 @@ Oracle clauses
                   rejected, not answered with a value (forms marked rej_ok: value = reference, or rejected)
   C10.context     the expression gives the same (documented) value in WHERE, nested in another rewritten function, in a
                   CTE, in a view body, in INSERT … SELECT and in UPDATE … SET as in the select list
+  C10.fetch       boundary values of the numeric conversions are the documented ones through fetchone / fetchmany / fetchall of a
+                  tuple cursor and of a DictCursor
   C10.stmt        statement-level constructs (RANDOM(seed), SAMPLE … SEED, IDENTIFIER(), VALUES columnN, ARRAY_AGG,
                   alias reuse in JOIN … ON): rows / column names / repeatability as documented, in SELECT statements and
                   again inside INSERT … SELECT, CREATE TABLE AS, a view, a top-level UNION ALL and UPDATE … SET = (subquery)
@@ -127,7 +129,7 @@ def case(fn, sql, thunk, kind, cls, rej_ok=False, meta=None, ctx=False, out=None
         if stats is not None:
             stats["not_demanded"] = stats.get("not_demanded", 0) + 1
         return None
-    c = {"fn": fn, "sql": sql, "exp": exp, "rej_ok": rej_ok, "cls": cls, "ctx": ctx and exp[0] == "val", "quoting": quoting_feature(sql)}
+    c = {"fn": fn, "sql": sql, "exp": exp, "rej_ok": rej_ok, "cls": cls, "ctx": ctx and exp[0] == "val", "quoting": quoting_feature(sql), "fetch": False}
     if out is not None:
         out.append(c)
     return c
@@ -207,8 +209,11 @@ def type_ok(exp, g, desc) -> bool:
     if not py:
         return False
     if kind == "num" and "scale" in meta:
-        sc = -g.as_tuple().exponent if isinstance(g, Decimal) else 0
-        if sc != meta["scale"]:
+        # the connector hands out NUMBER(p,0) as int and NUMBER(p,s>0) as Decimal with s fractional digits
+        if meta["scale"] == 0:
+            if type(g) is not int:
+                return False
+        elif type(g) is not Decimal or -g.as_tuple().exponent != meta["scale"]:
             return False
     if desc is not None:
         code, prec, scale = desc
@@ -1106,8 +1111,70 @@ def gen_nested(tier, out, stats):
                  rej_ok=form in REJ_OK_TODAY or f"NESTED:{ofn}.{arg}(*)" in REJ_OK_TODAY, out=out, stats=stats)
 
 
+# ---- precision boundaries of the numeric conversions ---------------------------------------------------------------------
+# Precisions where representations change (1, 2, 4, 9/10: 32-bit, 18/19/20: 64-bit, 37/38: 128-bit) x scales 0, 1, p-1;
+# per (p, s), with m = p - s integer digits: ±(10**m - 1) and (s > 0) ±(10**p - 1)/10**s — the largest that fit —,
+# ±10**m — the smallest that does not fit: error, NULL for TRY_ —, and the machine-word boundaries 2**7, 2**15, 2**31,
+# 2**63, 2**64, each also minus one and plus one, with both signs, as far as they fit the precision.
+# Sources: a string constant and a numeric literal; functions: TO_DECIMAL / TO_NUMBER / TO_NUMERIC, TRY_ forms, ::NUMBER(p,s).
+# The cases near 2**63 / 2**64 and the largest fitting values are also fetched through every fetch path (work_fetch_paths).
+PB_PRECISIONS = {Q: [18, 19, 20, 38], T: [1, 2, 4, 9, 10, 37]}
+PB_POWERS = {Q: [63, 64], T: [7, 15, 31]}
+PB_FUNCS = {Q: ["TO_DECIMAL", "TRY_TO_NUMBER"], T: ["TO_NUMBER", "TO_NUMERIC", "TRY_TO_DECIMAL", "TRY_TO_NUMERIC"]}
+
+
+def pb_values(tier, p, s):
+    """[(label, Decimal)] for NUMBER(p, s)"""
+    m = p - s
+    vals = [("largest_integer_that_fits", Decimal(10**m - 1)), ("smallest_that_does_not_fit", Decimal(10**m))]
+    if s > 0:
+        vals.append(("largest_that_fits", Decimal("9" * m + "." + "9" * s)))  # written out: no context rounding
+    for k in _t(tier, PB_POWERS[Q], PB_POWERS[T]):
+        for off, name in ((-1, f"2^{k}-1"), (0, f"2^{k}"), (1, f"2^{k}+1")):
+            v = 2**k + off
+            if v < 10**m:
+                vals.append((name, Decimal(v)))
+    out = []
+    for label, v in vals:
+        out.append((label, v))
+        out.append(("minus_" + label, -v))
+    return out
+
+
+def gen_precision_boundaries(tier, out, stats):
+    if _STYLE[0] != "single":
+        return  # constant syntax is an independent dimension
+    for p in _t(tier, PB_PRECISIONS[Q], PB_PRECISIONS[T]):
+        for s in sorted({0, 1, p - 1} & set(range(0, p))):
+            meta = {"precision": p, "scale": s}
+            sl = "0" if s == 0 else "1" if s == 1 else "p-1"
+            for label, v in pb_values(tier, p, s):
+                text = format(v, "f")
+                watch = label.removeprefix("minus_").startswith(("2^63", "2^64", "largest"))
+                # class: kind of boundary (sign and the ±1 neighbours folded) and whether the value fits a signed 64-bit word
+                base = label.removeprefix("minus_")
+                vk = "near_" + base.split("-")[0].split("+")[0] if base.startswith("2^") else base
+                label = f"{vk},int64={'within' if -(2**63) <= v.to_integral_value() <= 2**63 - 1 else 'beyond'}"
+                for name in _t(tier, PB_FUNCS[Q], PB_FUNCS[T]):
+                    ref = sf.try_to_decimal if name.startswith("TRY_") else sf.to_decimal
+                    grp = "TRY_TO_DECIMAL" if name.startswith("TRY_") else "TO_DECIMAL"
+                    c = case(name, f"{name}({q(text)}, {p}, {s})", lambda text=text, p=p, s=s, ref=ref: ref(text, p, s), "num",
+                             f"fn={grp},boundary,p={p},s={sl},value={label},src=string", meta=meta, out=out, stats=stats)
+                    if c is not None and watch and c["exp"][0] == "val":
+                        c["fetch"] = True
+                    if not name.startswith("TRY_"):
+                        lit_sql = f"({text})" if text.startswith("-") else text
+                        case(name, f"{name}({lit_sql}, {p}, {s})", lambda v=v, p=p, s=s: sf.to_decimal(v, p, s), "num",
+                             f"fn={grp},boundary,p={p},s={sl},value={label},src=literal", meta=meta, out=out, stats=stats)
+                for src, x in (("string", q(text)), ("literal", f"({text})" if text.startswith("-") else text)):
+                    c = case("CAST_NUMBER", f"{x}::NUMBER({p},{s})", lambda v=v, p=p, s=s: sf.cast_number(v, p, s), "num",
+                             f"fn=CAST,boundary,p={p},s={sl},value={label},src={src}", meta=meta, out=out, stats=stats)
+                    if c is not None and watch and c["exp"][0] == "val":
+                        c["fetch"] = True
+
+
 GENERATORS = [
-    gen_regexp_substr, gen_regexp_replace, gen_split, gen_trim, gen_to_date, gen_to_timestamp, gen_to_decimal, gen_casts,
+    gen_precision_boundaries, gen_regexp_substr, gen_regexp_replace, gen_split, gen_trim, gen_to_date, gen_to_timestamp, gen_to_decimal, gen_casts,
     gen_dateadd, gen_datediff, gen_sha2, gen_equal_null, gen_nested,
 ]
 _CASES: dict = {}
@@ -1269,6 +1336,44 @@ def context_verdict(c, base_obs, ctxname, o, exp):
             except Exception:  # noqa: BLE001  (the select-list value is not of the expected kind)
                 pass
     return True
+
+
+FETCH_PATHS = ("tuple.fetchone", "tuple.fetchmany", "dict.fetchone", "dict.fetchmany", "dict.fetchall")
+
+
+def work_fetch_paths(item, acc: core.Acc, tier):
+    """item = index of a case flagged fetch: the value must be the documented one through every way of fetching it
+    (fetchall of a tuple cursor is what work_exprs uses)."""
+    from snowflake.connector.cursor import DictCursor
+
+    cases, _ = expr_cases(tier)
+    c = cases[item]
+    _cur()
+    conn = _W["conn"]
+    nbad = 0
+    for path in FETCH_PATHS:
+        kind, meth = path.split(".")
+        cur = conn.cursor(DictCursor) if kind == "dict" else conn.cursor()
+        try:
+            cur.execute(f"SELECT {c['sql']} AS x0")
+            r = cur.fetchone() if meth == "fetchone" else cur.fetchmany(1)[0] if meth == "fetchmany" else cur.fetchall()[0]
+            g = r["X0"] if kind == "dict" else r[0]
+            o = ("ok", g, None)
+        except Exception as e:  # noqa: BLE001
+            o = ("rej", "execute/fetch", _exc(e))
+        acc.count("evaluations")
+        acc.count("fetch_path_cases")
+        acc.obs((c["sql"], path, obs_repr(o)))
+        acc.outcome(("fetch", path, o[0]))
+        acc.nontrivial((path, c["sql"]))
+        bad = verdicts(c, o)
+        cls = f"fetch={path}," + c["cls"].split(",value=")[0]
+        acc.member("C10.fetch", cls, bool(bad))
+        if bad:
+            nbad += 1
+            acc.violation("C10.fetch", cls, {"sql": c["sql"], "path": path, "expected": _exp_repr(c["exp"]), "observed": obs_repr(o), "violated": bad},
+                          {"kind": "fetch", "fn": c["fn"], "sql": c["sql"], "path": path, "tier": tier})
+    return nbad
 
 
 def work_contexts(item, acc: core.Acc, tier):
@@ -1754,11 +1859,13 @@ def run(ctx: core.Ctx):
     items = [(lo, min(lo + BATCH, len(cases))) for lo in range(0, len(cases), BATCH)]
     ctx.pmap(work_exprs, items)
     ctx.pmap(work_contexts, [i for i, c in enumerate(cases) if c["ctx"]])
+    ctx.pmap(work_fetch_paths, [i for i, c in enumerate(cases) if c["fetch"]])
     ctx.pmap(work_stmts, list(range(len(stmt_cases(tier)))))
     ctx.exhaustive = True
     ctx.extra["bound"] = f"full product of the {tier} alphabets"
     ctx.extra["expression_cases"] = len(cases)
     ctx.extra["context_cases_flagged"] = sum(1 for c in cases if c["ctx"])
+    ctx.extra["fetch_path_cases_flagged"] = sum(1 for c in cases if c["fetch"])
     ctx.extra["statement_cases"] = len(stmt_cases(tier))
     ctx.extra["not_demanded_dropped"] = stats.get("not_demanded", 0)
     ctx.extra["cases_per_construct"] = {}
@@ -1790,6 +1897,13 @@ def replay(payload):
     print("class:", c["cls"], "rej_ok:", c["rej_ok"])
     print("expected:", _exp_repr(c["exp"]))
     print("observed (select list):", obs_repr(base))
+    if r["kind"] == "fetch":
+        acc = core.Acc()
+        work_fetch_paths(cases.index(c), acc, tier)
+        for (cl, k), v in sorted(acc.viol.items()):
+            print("violation:", cl, k, v["detail"]["observed"])
+        print("verdict:", "VIOLATION" if acc.viol else "ok")
+        return bool(acc.viol)
     if r["kind"] == "expr":
         bad = verdicts(c, base)
         print("verdict:", bad or "ok")
